@@ -636,7 +636,8 @@ def tr_mutation(res):
                             if mc3 and mc3[0] == ["$" + itname] and mc3[1] == "locus":
                                 sc.defs[v.get("name")] = ("v", V_I if ch.get("name") == "index" else V_C)
                                 continue
-                        raise Refuse("mutation: integer local %r is not a coordinate of the iterator" % v.get("name"))
+                        cx.decl(v)          # any other const integer local: substituted by its definition
+                        continue
                     cx.decl(v)
                     if "basic_gene" in t:
                         shape["cand"] = cx.genes[v.get("name")]
@@ -1156,13 +1157,12 @@ def tr_team(res):
 
 def extract():
     res = {}
-    tr_ctor(res)
-    tr_mutation(res)
-    tr_crossover(res)
-    tr_destroy(res)
-    tr_get_block(res)
-    tr_gene(res)
-    tr_team(res)
+    for f in (tr_ctor, tr_mutation, tr_crossover, tr_destroy, tr_get_block, tr_gene, tr_team):
+        try:
+            f(res)
+        except (KeyError, IndexError, AttributeError, TypeError, ValueError) as e:
+            # a node that is not where the known shape has it: never guess
+            raise Refuse("%s: the AST does not have the expected shape (%s: %s)" % (f.__name__, type(e).__name__, e))
     return res
 
 
